@@ -10,13 +10,15 @@ from ._st import dump_bucket, meta_canon, obs, wreck_dict, wreck_event
 ID = "C01"
 LEVEL = "exploration"
 ANCHOR_FILES = ["aw_datastore/storages/memory.py", "aw_datastore/storages/sqlite.py", "aw_datastore/storages/peewee.py"]
-REQUIRED_COUNTERS = ["events_read_back.memory", "events_read_back.sqlite", "events_read_back.peewee", "aliasing_probes"]
+REQUIRED_COUNTERS = ["events_read_back.memory", "events_read_back.sqlite", "events_read_back.peewee", "aliasing_probes",
+                     "delete_then_insert_probes"]
 RULE = ("per case one store (memory / sqlite file / peewee file), one bucket created with a data dict, 1-12 generated "
         "events (instants 1970..2100 at any UTC offset, durations 0..30 d at µs granularity, nested JSON data) "
         "inserted singly or in bulk (bulk sizes straddling 50/100/101/250 in some cases), read back by listing and by "
         "id, then every caller-side object (events passed in, returned, handed out; metadata dicts; the create/update "
         "data dict) is mutated and everything is read again; then replace / replace_last / bulk upsert with the same "
-        "mutate-afterwards probe; 'sweep' cases push thousands of instants through one bulk insert; non-trivial = "
+        "mutate-afterwards probe; then one event that is not the newest is deleted and three more are inserted (single + "
+        "bulk) and ids / lookups re-checked; 'sweep' cases push thousands of instants through one bulk insert; non-trivial = "
         "sub-millisecond duration part or non-UTC offset or nested/unicode data; signature = (backend, bulk?, decade, "
         "binary exponent of the start µs, duration class, data-shape class)")
 ASSUMPTIONS = ["the contract compared against is the millisecond floor of the given instant (Event's own normalisation)",
@@ -45,7 +47,7 @@ def gen_case(rng, ctx):
         evs.append(s)
     return dict(kind="alias", backend=backend, bulk=rng.random() < 0.4, events=evs,
                 bucket_data=rand_data(rng, 3), update_data={"k": rand_json(rng, 2), "l": [1, {"m": 2}]},
-                repl=[rand_event_spec(rng, 3) for _ in range(3)])
+                repl=[rand_event_spec(rng, 3) for _ in range(3)], del_pick=rng.randrange(100))
 
 
 def _want(spec):
@@ -213,6 +215,41 @@ def run_case(case, ctx):
                 if before[part] != after[part]:
                     viols.append((f"caller-mutation-after-rewrite-changed-stored-{part}",
                                   f"backend={backend} before={before[part]!r:.300} after={after[part]!r:.300}"))
+        # ------------------------------------------------------------ ids stay unique across deletions
+        if len(ids) >= 2 and not viols:
+            victim = ids[case.get("del_pick", 0) % (len(ids) - 1)]      # never the highest id: that one is C02's case
+            live = {t[0]: t for t in dump_bucket(b)}
+            b.delete(victim)
+            live.pop(victim, None)
+            fresh_specs = [dict(s, data=dict(s["data"], uid=1000 + i)) for i, s in enumerate(case["repl"])]
+            r = b.insert(mk_event(fresh_specs[0]))
+            b.insert([mk_event(s) for s in fresh_specs[1:]])
+            after = dump_bucket(b)
+            all_ids = [t[0] for t in after]
+            if len(set(all_ids)) != len(all_ids):
+                viols.append(("ids-not-unique-after-delete-and-insert", f"backend={backend} ids={sorted(all_ids)} deleted={victim}"))
+            if r is not None and r.id in live:
+                viols.append(("fresh-insert-got-live-id", f"backend={backend} id={r.id} live={sorted(live)}"))
+            by_uid = {}
+            for t in after:
+                by_uid.setdefault(__import__("json").loads(t[3]).get("uid"), []).append(t)
+            for s in fresh_specs:
+                g = by_uid.get(s["data"]["uid"], [])
+                if len(g) != 1:
+                    viols.append(("event-missing-or-duplicated-after-delete", f"backend={backend} uid={s['data']['uid']} found={len(g)}"))
+                    continue
+                _cmp("listing-after-delete", _want(s), g[0], viols)
+                e2 = b.get_by_id(g[0][0])
+                if e2 is None or obs(e2) != g[0]:
+                    viols.append(("lookup-by-id-returns-another-event", f"backend={backend} id={g[0][0]} listing={g[0]!r:.200} "
+                                                                        f"lookup={None if e2 is None else obs(e2)!r:.200}"))
+            for i, t in live.items():
+                e2 = b.get_by_id(i)
+                if e2 is None or obs(e2) != t:
+                    viols.append(("older-event-unreachable-by-its-id", f"backend={backend} id={i} stored={t!r:.200} "
+                                                                       f"lookup={None if e2 is None else obs(e2)!r:.200}"))
+                    break
+            ctx.count("delete_then_insert_probes")
     nontriv = any(s[4] == "sub-ms" or s[6] or s[5] != "flat" for s in sigs)
     n = max(1, len(specs))
     sig = sigs[0] if sigs else (backend, "empty")
